@@ -21,6 +21,16 @@ def showNats (l : List Nat) : String :=
 def showInts (l : List Int) : String :=
   if l.isEmpty then "-" else ",".intercalate (l.map toString)
 
+def parseRat (s : String) : Option Rat :=
+  match s.splitOn "/" with
+  | [a] => a.toInt?.map (fun n => (n : Rat))
+  | [a, b] => match a.toInt?, b.toNat? with
+    | some n, some d => some (mkRat n d)
+    | _, _ => none
+  | _ => none
+
+def showRat (q : Rat) : String := if q.den == 1 then toString q.num else s!"{q.num}/{q.den}"
+
 /-- run `step` over stdin lines, printing one output line per input line -/
 partial def loop {σ : Type} (step : σ → String → σ × String) (init : σ) : IO Unit := do
   let h ← IO.getStdin
